@@ -18,7 +18,12 @@ CLASSES = {
     "prefix": "PrefixAdapter",
     "suffix": "SuffixAdapter",
     "anywhere": "AnywhereAdapter",
+    # regular 5'/3' adapters with the 'anywhere' search parameter (used for linked adapters): anywhere placement
+    "front_fa": "FrontAdapter",
+    "back_fa": "BackAdapter",
+    "rightmost_fa": "RightmostFrontAdapter",
 }
+BASIC_KINDS = ["back", "front", "rightmost_front", "nonint_back", "nonint_front", "prefix", "suffix", "anywhere"]
 FIVE_PRIME = {"front", "rightmost_front", "nonint_front", "prefix"}
 
 IUPAC_ALPHABET = "ABCDGHIKMNRSTUVWXY"    # what the constructor accepts with adapter wildcards on
@@ -113,7 +118,7 @@ def placement_ok(kind, m, n, astart, astop, rstart, rstop):
         return astart == 0 and astop == m and rstart == 0
     if kind == "suffix":
         return astart == 0 and astop == m and rstop == n
-    if kind == "anywhere":
+    if kind in ("anywhere", "front_fa", "back_fa", "rightmost_fa"):
         return (astart == 0 or rstart == 0) and (astop == m or rstop == n)
     raise ValueError(kind)
 
@@ -151,6 +156,8 @@ def real_adapter(kind, cfg, adapter):
     kw = dict(max_errors=cfg["rate"], read_wildcards=cfg["read_wildcards"], adapter_wildcards=cfg["adapter_wildcards"], indels=cfg["indels"])
     if kind not in ("prefix", "suffix"):
         kw["min_overlap"] = cfg["min_overlap"]
+    if kind.endswith("_fa"):
+        kw["force_anywhere"] = True
     return cls(adapter, **kw)
 
 
@@ -306,6 +313,8 @@ def build_adapter(it, kind, adapter, cfg, mock_prefilter):
     kw = dict(max_errors=cfg["rate"], read_wildcards=cfg["read_wildcards"], adapter_wildcards=cfg["adapter_wildcards"], indels=cfg["indels"])
     if kind not in ("prefix", "suffix"):
         kw["min_overlap"] = cfg["min_overlap"]
+    if kind.endswith("_fa"):
+        kw["force_anywhere"] = True
     return it.call_value(cls, [adapter], kw)
 
 
